@@ -1254,7 +1254,11 @@ namespace bluetoe {
         if ( lesc_pairing )
         {
             const io_capabilities_t remote_io_caps = {{ io_capability, oob_data_flag, auth_req }};
-            state.pairing_algorithm( this->lesc_select_pairing_algorithm( io_capability, oob_data_flag, auth_req, this->has_oob_data_for_remote_device() ) );
+
+            // The data provided by oob_authentication_callback<> is legacy pairing OOB data (TK). It is not announced
+            // by lesc_local_io_caps() and must not be taken into account for LESC (same as in lesc_handle_pairing_request())
+            static constexpr bool no_lesc_oob_data = false;
+            state.pairing_algorithm( this->lesc_select_pairing_algorithm( io_capability, oob_data_flag, auth_req, no_lesc_oob_data ) );
             state.pairing_requested( remote_io_caps );
 
             this->create_pairing_response( output, out_size, this->lesc_local_io_caps() );
